@@ -336,24 +336,28 @@ impl C08 {
                     bad.push(format!("{name} = {got}, expected {exp}"));
                 }
             };
-            chk("archived(a) == archived(b)", aa == ab, want == Ordering::Equal);
-            chk("archived(a) < archived(b)", aa < ab, want == Ordering::Less);
-            chk("archived(a) > archived(b)", aa > ab, want == Ordering::Greater);
-            chk("archived(a) != archived(b)", aa != ab, want != Ordering::Equal);
-            chk("archived(a) <= archived(b)", aa <= ab, want != Ordering::Greater);
-            chk("archived(a) >= archived(b)", aa >= ab, want != Ordering::Less);
-            chk("a <= archived(b)", a <= *ab, want != Ordering::Greater);
-            chk("archived(a) >= b", *aa >= b, want != Ordering::Less);
+            // the complete operator matrix for the three pairings (each operator is a separate,
+            // overridable trait method)
+            macro_rules! all_ops {
+                ($name:literal, $l:expr, $r:expr) => {
+                    chk(concat!($name, " =="), $l == $r, want == Ordering::Equal);
+                    chk(concat!($name, " !="), $l != $r, want != Ordering::Equal);
+                    chk(concat!($name, " <"), $l < $r, want == Ordering::Less);
+                    chk(concat!($name, " <="), $l <= $r, want != Ordering::Greater);
+                    chk(concat!($name, " >"), $l > $r, want == Ordering::Greater);
+                    chk(concat!($name, " >="), $l >= $r, want != Ordering::Less);
+                };
+            }
+            all_ops!("archived(a) vs archived(b):", *aa, *ab);
+            all_ops!("a vs archived(b):", a, *ab);
+            all_ops!("archived(a) vs b:", *aa, b);
+            all_ops!("&archived(a) vs &archived(b):", aa, ab);
             chk("archived(a).partial_cmp(archived(b))", aa.partial_cmp(ab) == Some(want), true);
             chk("archived(a).cmp(archived(b))", aa.cmp(ab) == want, true);
-            chk("a == archived(b)", a == *ab, want == Ordering::Equal);
-            chk("a < archived(b)", a < *ab, want == Ordering::Less);
-            chk("a > archived(b)", a > *ab, want == Ordering::Greater);
             chk("a.partial_cmp(archived(b))", a.partial_cmp(ab) == Some(want), true);
-            chk("archived(a) == b", *aa == b, want == Ordering::Equal);
-            chk("archived(a) < b", *aa < b, want == Ordering::Less);
-            chk("archived(a) > b", *aa > b, want == Ordering::Greater);
             chk("archived(a).partial_cmp(b)", aa.partial_cmp(&b) == Some(want), true);
+            chk("PartialOrd::ge(&a, archived(b))", PartialOrd::ge(&a, ab), want != Ordering::Less);
+            chk("PartialOrd::le(archived(a), &b)", PartialOrd::le(aa, &b), want != Ordering::Greater);
             chk("archived eq_zero", aa.eq_zero(), x.c == 0);
             chk("archived is_negative", aa.is_negative(), x.c < 0);
             chk("archived is_positive", aa.is_positive(), x.c > 0);
